@@ -21,6 +21,7 @@ import (
 	"github.com/ipld/go-ipld-prime/node/bindnode"
 	"github.com/ipld/go-ipld-prime/node/gendemo"
 	"github.com/ipld/go-ipld-prime/traversal"
+	rcbor "github.com/polydawn/refmt/cbor"
 
 	"verif/internal/core"
 )
@@ -456,6 +457,58 @@ func runC10(c *core.Ctx) error {
 		c.Dist("json-input:" + label)
 		c.Dist("json-class:" + o.class)
 		c10Common(c, name, caseID, o, 0, len(in), int(md))
+	}
+	// the token-level entry point (dagcbor.Unmarshal over a token source of the caller's, here refmt's decoder with its
+	// own defaults, which do not refuse indefinite lengths): nesting of definite and indefinite collections around the
+	// depth limit
+	for i := 0; i < c.Pick(120, 8000); i++ {
+		r := c.Rand
+		md := []int64{0, 1, 4, 8, 64}[r.Intn(5)]
+		lim := md
+		if lim == 0 {
+			lim = 1024
+		}
+		depth := int(lim) + []int{-1, 0, 1, 2, 5, 2000}[r.Intn(6)]
+		if depth < 1 {
+			depth = 1
+		}
+		var in, tail []byte
+		for d := 0; d < depth; d++ {
+			switch r.Intn(4) {
+			case 0:
+				in = append(in, 0x81)
+			case 1:
+				in = append(in, 0xa1, 0x61, 0x61)
+			case 2:
+				in = append(in, 0x9f)
+				tail = append([]byte{0xff}, tail...)
+			default:
+				in = append(in, 0xbf, 0x61, 0x61)
+				tail = append([]byte{0xff}, tail...)
+			}
+		}
+		in = append(append(in, 0x00), tail...)
+		var built datamodel.Node
+		var derr error
+		_, panicked, pv := core.Catch(func() error {
+			nb := basicnode.Prototype.Any.NewBuilder()
+			derr = dagcbor.Unmarshal(nb, rcbor.NewDecoder(rcbor.DecodeOptions{}, bytes.NewReader(in)), dagcbor.DecodeOptions{MaxDepth: md})
+			if derr == nil {
+				built = nb.Build()
+			}
+			return nil
+		})
+		caseID := fmt.Sprintf("cbor.unmarshal-tokens maxdepth=%d nesting=%d %s", md, depth, hexArg(truncateBytes(in, 200)))
+		c.Count(caseID, true)
+		c.Dist("token-entry:" + map[bool]string{true: "accepted", false: "refused"}[derr == nil && !panicked])
+		if panicked {
+			c.Fail("C10/panic", core.Replay{Kind: "oracle", Case: caseID, Impl: fmt.Sprint(pv)})
+		} else if built != nil {
+			if d := valDepth(built, 5000); d > int(lim) {
+				c.Fail("C10/depth-limit-exceeded", core.Replay{Kind: "oracle", Case: caseID, Impl: fmt.Sprintf("built a value nested %d deep", d), Expected: fmt.Sprintf("an error, or nesting <= %d", lim),
+					Detail: "dagcbor.Unmarshal over refmt's CBOR decoder with default options (indefinite lengths not refused by the tokenizer)"})
+			}
+		}
 	}
 	// selectors with extreme numbers / degenerate recursion: compile and walk, against the model too
 	var cases []walkCase
